@@ -60,6 +60,17 @@ CHECKS = {
             "relative to steepness, nothing beyond, terminal event last and matching a true root with no certain earlier terminal root, status/success, "
             "prefix invariants (C03/C06 oracles), then continuation (plain, to an intermediate time, with a second terminal event) re-checked.",
             "Exploration; only 'certain' (isolated, transversal) true roots are required to be honoured; re-arming the same event at its root is out of scope.", "4/C09"),
+    "C10": ("exploration", "runtime oracle on the one-step map of the real integrators (exact/finite-difference Jacobian J-test, h/-h round trip, long-run energy monitor)",
+            "Symplectic-flagged methods: exact step matrix on quadratic Hamiltonians and finite-difference step Jacobian on nonlinear separable ones must "
+            "satisfy M^T J M = J, step(h) then step(-h) must return, 3000-step runs must show no secular energy growth; the same Hamiltonian is presented in "
+            "(q,p), (p,q) and interleaved layouts with the matching kick mask through set_kick_vars / set_method / the constructor; non-symplectic methods are "
+            "run as negative controls (the monitor must fire on them).",
+            "Exploration; implicit methods are probed in float64 (delta 1e-4, threshold 3e-7), splitting methods in longdouble (1e-9).", "4/C10"),
+    "C11": ("exploration", "runtime oracle: accepted steps of the real implicit integrators on the linear test equation vs the stability function of the class tableau",
+            "y'=lambda*y and damped 2x2 blocks with the exact Jacobian hooked, z=h*lambda over the closed left half-plane (|z| 1e-3..1e8, imaginary axis "
+            "included, both step signs consistent with decay): an accepted step never increases |y| and reproduces |R(z')| for the accepted h'; in addition "
+            "|R|<=1 on a 45x44 log-polar grid and no pole in the closed left half-plane, computed in extended precision from the class tableau.",
+            "Exploration; tolerances scaled to eps*|lambda| so that Newton can converge; raises are 'no acceptance' and only counted.", "4/C11"),
 }
 
 NOT_YET = {}
